@@ -97,3 +97,13 @@ Theorem C18_ows_inside_value_matters :
   negotiate (Some [116;101;120;116;47;99;115;118;59;113;61;48;46;53]%N) = Some ct_csv /\
   negotiate (Some [116;101;120;116;47;99;115;118;59;113;61;48;46;32;53]%N) = None.
 Proof. exact ows_inside_value_matters. Qed.
+
+(* the header clause of the run's predicate: any supported (or synonym) type whose q is maximal among the supported ones is acceptable --
+   the statement does not say which of several types with the same highest q wins; the specification's own answer is acceptable, and
+   without ties it is the only acceptable one *)
+Theorem C18_negotiate_acceptable : forall h, negotiate_acceptable h (spec_negotiate h) = true.
+Proof. exact negotiate_acceptable_spec. Qed.
+Print Assumptions C18_negotiate_acceptable.
+Theorem C18_negotiate_unique_without_ties : forall h a, header_no_ties h = true -> negotiate_acceptable h a = true -> a = spec_negotiate h.
+Proof. exact negotiate_acceptable_unique. Qed.
+Print Assumptions C18_negotiate_unique_without_ties.
